@@ -14,6 +14,8 @@ or `err=<class>`; after an error every further line of the case is answered `dea
   sep <x> <y|j.p>                         x.separate_out(y, energy_balance=False)
   copy <d> <s> <*|=c|c,c,..|()> <rm> <ex> [phase]  d.copy_flow(s, [phase,] IDs, remove=, exclude=)
   scale <i> <k> | idiv <i> <k> | mul <i> <k> | div <i> <k> | empty <i>
+  obs <j> (S[j].flow_proxy()) | obs <j.p> (S[j]['p']) | from <i,j,..> (MultiStream.from_streams): new stream indices that
+      hold the same flow data; in-place scaling of any holder scales the data for all of them
   mix lines may carry `vle` or `cp` (vle=True / conserve_phases=True) before `eb`: totals only, last op of the case
   mix / sum / split / sep lines may end with `eb`: the call is made with the default energy_balance=True
   iadd <a> <b> (a += b) | add <a> <b> (a + b, new stream on package 0) | isub <a> <b> (a -= b) | neg <a> | rmul <a> <k> (k * a) | imul <a> <k>
@@ -24,6 +26,8 @@ open ThermoVerif.Flow Driver
 structure St where
   w : World := { pkgs := [], strms := [] }
   dead : Bool := false
+  /-- holders of shared flow data (phase views, flow proxies, constituents of `from_streams`) -/
+  al : List Alias := []
 
 def parseNats (s : String) : Option (List Nat) :=
   if s == "-" || s == "()" then some [] else (splitComma s).mapM (·.toNat?)
@@ -68,7 +72,7 @@ def St.show (st : St) : String :=
 
 def finish (st : St) (r : Except Err World) : St × String :=
   match r with
-  | .ok w' => let st' := { st with w := w' }; (st', st'.show)
+  | .ok w' => let st' := { st with w := refresh w' st.al }; (st', st'.show)
   | .error e => ({ st with dead := true }, s!"err={e.toString}")
 
 def bad (st : St) : St × String := ({ st with dead := true }, "bad-op")
@@ -77,6 +81,18 @@ def parseIDs (t : String) : Option IDs :=
   if t == "*" then some .all
   else if t.startsWith "=" then (t.drop 1).toString.toNat?.map IDs.one
   else (parseNats t).map IDs.many
+
+/-- the owner (and row) of the data stream `i` holds, if `i` is only a holder -/
+def holderOf (st : St) (i : Nat) : Option Alias := st.al.find? (·.i == i)
+
+/-- in-place scaling (`scale`, `*=`, `/=`): applied to the data itself, i.e. to the owner when `i` is a holder -/
+def scaleOp (st : St) (i : Nat) (k : Rat) (divide : Bool) : Except Err World :=
+  match holderOf st i with
+  | some a =>
+    match a.q with
+    | some q => if divide then divRow st.w a.j q k else scaleRow st.w a.j q k
+    | none => if divide then idiv st.w a.j k else scale st.w a.j k
+  | none => if divide then idiv st.w i k else scale st.w i k
 
 def copyOp (st : St) (d s ids rm ex ph : String) : St × String :=
   let w := st.w
@@ -179,12 +195,46 @@ def step (st : St) (line : String) : St × String :=
   | ["copy", d, s, ids, rm, ex, ph] => copyOp st d s ids rm ex ph
   | ["scale", i, k] =>
     match i.toNat?, parseRat? k with
-    | some i, some k => finish st (scale w i k)
+    | some i, some k => finish st (scaleOp st i k false)
     | _, _ => bad st
   | ["idiv", i, k] =>
     match i.toNat?, parseRat? k with
-    | some i, some k => finish st (idiv w i k)
+    | some i, some k => finish st (scaleOp st i k true)
     | _, _ => bad st
+  -- holders of shared flow data
+  | ["obs", t] =>
+    match parseRef t with
+    | some (.strm j) =>
+      -- `S[j].flow_proxy()`
+      match w.strms[j]?, holderOf st j with
+      | some s, none => finish { st with al := st.al ++ [{ i := w.strms.length, j := j, q := none }] }
+                          (.ok { w with strms := w.strms ++ [s] })
+      | _, _ => bad st
+    | some (.view j p) =>
+      -- `S[j][p]`
+      match w.strms[j]?, holderOf st j with
+      | some s, none =>
+        if s.multi then
+          match resolve s.ph p with
+          | some q => finish { st with al := st.al ++ [{ i := w.strms.length, j := j, q := some q }] }
+                        (.ok { w with strms := w.strms ++ [{ pkg := s.pkg, multi := false, ph := [(p, rowOf s.ph q)] }] })
+          | none => finish st (.error .undefinedPhase)
+        else if p.toLower == s.phase.toLower then
+          finish { st with al := st.al ++ [{ i := w.strms.length, j := j, q := none }] } (.ok { w with strms := w.strms ++ [s] })
+        else finish st (.error .undefinedPhase)
+      | _, _ => bad st
+    | none => bad st
+  | ["from", ids] =>
+    match parseNats ids with
+    | some ids =>
+      if ids.any (fun i => (holderOf st i).isSome) then bad st else
+      match fromStreams w ids with
+      | .ok w' =>
+        let new := w.strms.length
+        let al' := ids.filterMap fun i => (w.strms[i]?).map fun x => ({ i := i, j := new, q := some x.phase } : Alias)
+        finish { st with al := st.al ++ al' } (.ok w')
+      | .error e => finish st (.error e)
+    | none => bad st
   | ["mul", i, k] =>
     match i.toNat?, parseRat? k with
     | some i, some k => finish st (mulNew w i k)
@@ -216,7 +266,7 @@ def step (st : St) (line : String) : St × String :=
     | _, _ => bad st
   | ["imul", i, k] =>
     match i.toNat?, parseRat? k with
-    | some i, some k => finish st (scale w i k)
+    | some i, some k => finish st (scaleOp st i k false)
     | _, _ => bad st
   | ["empty", i] =>
     match i.toNat? with
